@@ -291,9 +291,12 @@ class EDXMLParserBase(object):
             # an ontology element in the tree and try to process it. That
             # will yield a better exception message than the errors
             # produced by the RelaxNG validator.
+            # Note that we must not process the element for real: That would invoke the
+            # ontology callback, passing an ontology that did not pass validation.
+            trial_ontology = copy.deepcopy(self._ontology) if self._ontology is not None else Ontology()
             for element in self.__root_element.iterfind('{http://edxml.org/edxml}ontology'):
                 if self.__root_element.index(element) < num_complete:
-                    self.__process_ontology(element)
+                    trial_ontology.update(element)
 
             # And if we did not identify the problem, we have no choice
             # but throw an exception showing the schema validation error.
